@@ -37,7 +37,7 @@ def rand_traj(rng, nseg=None, allow_zero_dur=False, degs=None, use_yaw=None, max
 def long_prefix(rng, x, y, z, min_bytes=65700, deg=7, flat_z=True, dur=None):
     """segments that hover around (x, y, z) (stored units) and end exactly there, long enough to push whatever follows
     beyond byte offset 65536 of the block (offsets kept in 16 bits by mistake wrap there)"""
-    per = 3 + 2 * deg * (3 if flat_z else 4) if not flat_z else 3 + 2 * deg * 2
+    per = 3 + 2 * deg * (2 if flat_z else 3)
     n = min_bytes // per + 1
     segs = []
     for i in range(n):
